@@ -486,7 +486,7 @@ func (s *Service) query(ctx context.Context, in *graphql.QueryInput, recv interf
 	if op.Operation == ast.Mutation {
 		rt = "Mutation"
 	}
-	it := &interp{schema: s.Schema, store: s.Store, doc: doc, vars: in.Variables, onMutation: func(f string) {
+	it := &interp{schema: s.Schema, store: s.Store, doc: doc, vars: withDefaults(op, in.Variables), onMutation: func(f string) {
 		ctl.mu.Lock()
 		if ctl.Effects == nil {
 			ctl.Effects = map[string]int{}
